@@ -13,7 +13,7 @@ def run(ctx):
     ctx.audit("Slock.Properties.C06", THEOREMS)
     if ctx.tier == "thorough":
         ctx.leanchecker("Slock.Properties.C06")
-    engine_common.run_engine(ctx, ["C06:"], n_quick=600, n_thorough=40000)
+    engine_common.run_engine(ctx, ["C06:"], n_quick=3000, n_thorough=60000)
     ctx.assumptions.append("server time = the virtual clock; one sweep per elapsed second; millisecond expiries and follower-side deferral are not modelled here")
     ctx.cov["rule"] = ("seeded sequences with expiries 1..65535 s / minutes / unlimited, updates that lengthen or shorten, re-locks, unlocks at every tick; monitor: EXPRIED in "
                        "[E, E+2] s (E+10 after a shortening update) of virtual time, unlimited never, hold gone after the notice")
